@@ -56,7 +56,8 @@ class JP_Abs(JumpInstruction):
         assert len(rest) == 0, "Expected no extra operands"
         assert isinstance(first, HasWidth), f"Expected HasWidth, got {type(first)}"
         if first.width() >= 3:
-            return first.lift(il)
+            dst_mode, _ = self._addressing_modes()
+            return first.lift(il, dst_mode)
         high_addr = addr & 0xFF0000
         return il.or_expr(3, first.lift(il), il.const(3, high_addr))
 
@@ -65,7 +66,7 @@ class JP_Abs(JumpInstruction):
 
         first, *rest = self.operands()
         assert len(rest) == 0, "Expected no extra operands"
-        if isinstance(first, ImmOperand):
+        if isinstance(first, ImmOperand) and not isinstance(first, IMem8):
             # absolute address
             assert first.value is not None, "Value not set"
             dest = first.value
